@@ -21,26 +21,33 @@ Expected(s, mode, keyflag) ==
        ELSE ConvertPiece(p.items, mode, IF keyflag = <<>> THEN KeyCmaj ELSE ParseKey(keyflag).k)
 
 \* an instance as the YAML shows it vs the instance Conv.tla computes
+\* (compared by meaning, not by spelling: which of two notations of one interval, which form of one fraction is printed is
+\* not what "the same instances" is about; settings may or may not be repeated among the free metadata)
+SameIvC(printed, iv) == LET q == ParseInterval(printed) IN q.ok /\ q.iv.n = iv.n /\ Size(q.iv) = Size(iv)
+SameRat(printed, r) == LET q == ParseRat(printed) IN q.ok /\ q.r[2] > 0 /\ q.r[1] * r[2] = r[1] * q.r[2]
+SettingNames == {kBPM, kVEL, kMTR, kKEY}
+FreeMeta(S) == {x \in S : x[1] \notin SettingNames}
 InstEq(o, e) ==
   /\ o.rest = e.rest
-  /\ (~e.rest => /\ o.deg = PrintInterval(e.deg) /\ o.name = e.sym
-                 /\ o.hasBase = e.hasBase /\ (e.hasBase => o.base = PrintInterval(e.base)))
-  /\ o.vals = [i \in 1..Len(e.vals) |-> PrintRat(e.vals[i])]
+  /\ (~e.rest => /\ SameIvC(o.deg, e.deg) /\ o.name = e.sym
+                 /\ (e.hasBase => o.hasBase /\ SameIvC(o.base, e.base))
+                 /\ (o.hasBase /\ ~e.hasBase => SameIvC(o.base, P1)))          \* (no bass = the root itself)
+  /\ Len(o.vals) = Len(e.vals) /\ \A i \in 1..Len(e.vals) : SameRat(o.vals[i], e.vals[i])
   /\ o.bpm = e.bpm
-  /\ o.meter = (IF e.meter = <<>> THEN <<>> ELSE PrintRat(e.meter))
+  /\ (IF e.meter = <<>> THEN o.meter = <<>> ELSE SameRat(o.meter, e.meter))
   /\ o.vel = e.vel
-  /\ o.key = (IF e.hasKey THEN PrintKey(e.key) ELSE <<>>)
-  /\ {<<o.meta[i][1], o.meta[i][2]>> : i \in 1..Len(o.meta)} = e.meta /\ Len(o.meta) = Cardinality(e.meta)
+  /\ (IF e.hasKey THEN ParseKey(o.key).ok /\ ParseKey(o.key).k = e.key ELSE o.key = <<>>)
+  /\ FreeMeta({<<Trim(o.meta[i][1]), Trim(o.meta[i][2])>> : i \in 1..Len(o.meta)}) = FreeMeta({<<Trim(x[1]), Trim(x[2])>> : x \in e.meta})
 OutEq(out, exp) == Len(out) = Len(exp) /\ \A i \in 1..Len(exp) : InstEq(out[i], exp[i])
 
 \* what one `text conv` run must do
 Honoured(x) ==
   LET e == Expected(x.s, x.mode, x.keyflag) IN
   /\ x.terminated
-  /\ (e.ok /\ ~e.may => x.ok)                         \* what the notation expresses and the key contains converts
-  /\ (~e.ok => ~x.ok)                                  \* nonsense is refused
+  /\ (e.ok /\ ~e.may /\ ~Exotic(x.s) => x.ok)         \* what the notation expresses and the key contains converts
+  /\ (~e.ok /\ ~Exotic(x.s) => ~x.ok)                  \* nonsense is refused
   /\ (x.ok /\ e.ok => OutEq(x.out, e.out))             \* never a different meaning
-  /\ (~x.ok => x.stdoutLen = 0 /\ x.stderrLen > 0)
+  /\ (~x.ok => x.exit # 0)                             \* a refusal is a failing run (its looks are C09's business)
 
 \* ------------------------------------------------------------------ C11
 \* abstract token sequence: NUMBER by value, SHARP/FLAT by kind, the optional `_` dropped
@@ -52,7 +59,9 @@ AbsToks(toks) == LET keep == SelectSeq(toks, LAMBDA t : t.t # "UNDERSCORE") IN
 DriverClaimC11 == R.kind = "pair" =>
                     LET a == Lex(R.a.s)  b == Lex(R.b.s) IN ~a.err /\ ~b.err /\ AbsToks(a.toks) = AbsToks(b.toks)
 C11Inv == R.kind = "pair" =>
-            /\ R.a.ok = R.b.ok /\ R.sameBytes             \* spelling variants: byte-identical result
+            /\ (IF Exotic(R.a.s) \/ Exotic(R.b.s)
+                THEN (R.a.ok /\ R.b.ok => R.sameBytes)     \* (blanks the statement does not name: agreement where both are accepted)
+                ELSE R.a.ok = R.b.ok /\ R.sameBytes)        \* spelling variants: byte-identical result
             /\ Honoured(R.a) /\ Honoured(R.b)            \* and an accepted accidental is honoured
 
 \* stretched trivia: the driver ran the text with n units of trivia in one gap; the record carries the texts with one and
@@ -77,7 +86,7 @@ DriverClaimC05 == R.kind = "prog" =>
                     /\ d.ok
                     /\ \A i \in 1..Len(R.syl) : LET e == Expected(R.syl[i].s, "syllable", R.syl[i].keyflag) IN e.ok /\ e.out = d.out
 C05Inv == R.kind = "prog" =>
-            /\ Honoured(R.deg) /\ R.deg.ok
+            /\ Honoured(R.deg) /\ (R.deg.ok \/ Expected(R.deg.s, "degree", <<>>).may)
             /\ \A i \in 1..Len(R.syl) :
                  /\ Honoured(R.syl[i])
                  /\ (R.syl[i].ok => R.syl[i].outBytesEqualDegree)        \* the same instances, whichever way they were written
